@@ -78,6 +78,7 @@ class Flow:
         self.dep_ifs = []
         self.fresh = set()      # names (re)assigned on this path
         self.weak_dep = set()   # containers made sign-dependent in place
+        self.pure_strip = set()  # names bound to abs(subject) itself
 
     # --- expression predicates
     def has_strip(self, e):
@@ -209,6 +210,21 @@ class Flow:
                 self.unstripped.discard(nm)
             (self.tainted.add if tainted else self.tainted.discard)(nm)
             (self.dep.add if dep else self.dep.discard)(nm)
+            (self.pure_strip.add if self._is_pure_strip(value)
+             else self.pure_strip.discard)(nm)
+
+    def _is_pure_strip(self, value):
+        """`abs(u)` / a local strip helper of the subject itself (not
+        something looked up with it)."""
+        if isinstance(value, ast.Name):
+            return value.id in self.pure_strip
+        if isinstance(value, ast.Call) and len(value.args) == 1 and \
+                not value.keywords and isinstance(value.args[0], ast.Name):
+            cn = au.call_name(value)
+            return (cn in STRIP_CALLS or cn in self.ctx.strip_helpers) \
+                and (value.args[0].id in self.unstripped
+                     or value.args[0].id in self.pure_strip)
+        return False
 
     def stmt(self, s):
         if isinstance(s, ast.Assign):
@@ -348,6 +364,7 @@ def check_function(R, func, subject, mode='return', emit=(),
                             if isinstance(x, ast.Name) and \
                                     x.id in flow.tainted and \
                                     x.id not in flow.dep and \
+                                    x.id not in flow.pure_strip and \
                                     au.const_int(y) in (1, -1):
                                 raw_decision.append((path, n2, x.id))
                 flow.enter_test(it[1], it[3])
